@@ -104,6 +104,24 @@ pub fn faults() -> Vec<Fault> {
     // declaration-level faults that do not depend on other declarations
     out.push(one("decl:P0003-duplicate-struct-element", "TYPE BadSt : STRUCT x : INT ; x : BOOL ; END_STRUCT ; END_TYPE", "P0003", Some("TYPE GoodSt : STRUCT x : INT ; y : BOOL ; END_STRUCT ; END_TYPE")));
     out.push(one("decl:P0004-subrange-limits", "TYPE BadRng : INT ( 10 .. -10 ) ; END_TYPE", "P0004", Some("TYPE GoodRng : INT ( -10 .. 10 ) ; END_TYPE")));
+    out.push(one(
+        "decl:P0004-array-bounds-of-a-variable",
+        "FUNCTION_BLOCK BadArr VAR a : ARRAY [ 1 .. 4 , 8 .. 2 ] OF INT ; END_VAR END_FUNCTION_BLOCK",
+        "P0004",
+        Some("FUNCTION_BLOCK GoodArr VAR a : ARRAY [ 1 .. 4 , 2 .. 8 ] OF INT ; END_VAR END_FUNCTION_BLOCK"),
+    ));
+    out.push(one(
+        "decl:P0004-array-bounds-of-a-structure-element",
+        "TYPE BadStArr : STRUCT a : ARRAY [ 8 .. 2 ] OF INT ; END_STRUCT ; END_TYPE",
+        "P0004",
+        Some("TYPE GoodStArr : STRUCT a : ARRAY [ 2 .. 8 ] OF INT ; END_STRUCT ; END_TYPE"),
+    ));
+    out.push(one(
+        "decl:P0012-initial-value-of-an-undeclared-enumeration",
+        "FUNCTION_BLOCK BadLv VAR lv : NoSuchLevel := Critical ; END_VAR END_FUNCTION_BLOCK",
+        "P0012",
+        Some("FUNCTION_BLOCK GoodLv VAR lv : INT := 1 ; END_VAR END_FUNCTION_BLOCK"),
+    ));
     out.push(one("decl:P0005-duplicate-enum-value", "TYPE BadEn : ( A2 , A2 ) := A2 ; END_TYPE", "P0005", Some("TYPE GoodEn : ( A2 , B2 ) := A2 ; END_TYPE")));
     out.push(one(
         "decl:P0016-constant-without-initial-value",
